@@ -10,6 +10,7 @@ C04 -- deleting an entity removes it, what it owns and every link to it -- nothi
  R4  delete_all selects children by their entity_id attribute and walks everything below its receiver
  R5  all four __delitem__ refuse items of the wrong kind before deleting
 """
+import ast
 from .common import Ctx, surface, api_key, describe_path, ENTITY_CLASSES
 from nixsa.px import explore, Config
 from nixsa.values import show, is_const, subterms, params_of
@@ -63,6 +64,11 @@ def delete_all_rule(M, rep, R4):
     rcfg.compose = False
     hg = M.classes.get("H5Group")
     f = hg.methods.get("delete_all") if hg else None
+    if f is not None:
+        # private members of the layer class that delete_all itself mentions (a visitor split off into a method) are part of it
+        for n_ in ast.walk(f.node):
+            if isinstance(n_, ast.Attribute) and n_.attr.startswith("_") and not n_.attr.startswith("__") and n_.attr in hg.methods:
+                rcfg.inline_layer = set(rcfg.inline_layer) | {hg.methods[n_.attr].qual}
     if f is None:
         rep.bad(R4, "H5Group.delete_all", "required mechanism not found")
     else:
@@ -95,6 +101,7 @@ def delete_all_rule(M, rep, R4):
         # every matching child is unlinked, not only the first one: after an unlink in iteration 0 the walk over the
         # children must go on (two unrolled iterations)
         rcfg2 = layer_config(M, unroll=2)
+        rcfg2.inline_layer = set(rcfg.inline_layer)
         rcfg2.compose = False
         cont = False
         for p in explore(rcfg2, f, "H5Group", None, 8000):
